@@ -1,6 +1,7 @@
 import Rl4co.Core.Proto
 import Rl4co.Env.Mtvrp
 import Rl4co.Spec.Mtvrp
+import Rl4co.Env.MtvrpGen
 namespace Rl4co.Driver.Mtvrp
 open Rl4co.Proto
 open Rl4co.Mtvrp
@@ -32,7 +33,7 @@ def verdicts (i : Inst) (as : List Nat) : String :=
   s!"dist={bit (Spec.Mtvrp.distB i as)} time={bit (Spec.Mtvrp.timeB .le i as)} " ++
   s!"cSort={bit (sortedTest i.n as)} cStatic={bit (checkStatic i)} cLen={bit (checkReplay noTw 0 0 0 as)} " ++
   s!"cTime={bit (checkReplay noLimit 0 0 0 as)} cCapL={bit (checkC1 i.cap i.dL 0 as)} cCapB={bit (checkC1 i.cap i.dB 0 as)} " ++
-  s!"wf={bit (wf i)} acc={bit (Spec.Mtvrp.acceptedB i as)}"
+  s!"wf={bit (wf i)} acc={bit (Spec.Mtvrp.acceptedB i as)} fixed={bit (checkR ⟨true, true, true⟩ i as)} cStaticR={bit (checkStatic (relaxDepot i))}"
 
 /-- `mtvrp.episode <instance sections> | actions` -/
 def episode (toks : List String) : Option String := do
@@ -66,12 +67,19 @@ def checkBatchOp (toks : List String) : Option String := do
   let feas := rows.map (fun r => Spec.Mtvrp.feasible r.1 r.2)
   pure s!"checkBatch={bit (checkBatch rows)} solo={bits solo} feas={bits feas}"
 
+/-- `mtvrp.episodegen …`: the mask / done trace of the environment built from the GENERATED definitions -/
+def episodeGen (toks : List String) : Option String := do
+  let secs ← parseSections toks
+  let i ← mkInst (secs.take 8)
+  let [acts] := secs.drop 8 | none
+  pure (episodeTrace envGen i (toNats acts))
+
 /-- `mtvrp.starts n B k`: the `k * B` forced start nodes of `select_start_nodes` -/
 def startsOp (toks : List String) : Option String := do
   let [n, b, k] ← nats toks | none
   pure s!"starts={natsStr (startNodes n b k)}"
 
 def handlers : List (String × (List String → Option String)) :=
-  [("mtvrp.episode", episode), ("mtvrp.check", checkOp), ("mtvrp.checkbatch", checkBatchOp), ("mtvrp.starts", startsOp)]
+  [("mtvrp.episode", episode), ("mtvrp.check", checkOp), ("mtvrp.checkbatch", checkBatchOp), ("mtvrp.starts", startsOp), ("mtvrp.episodegen", episodeGen)]
 
 end Rl4co.Driver.Mtvrp
